@@ -60,9 +60,11 @@ Theorem C08_shape : shape_ok = true.
 Proof. vm_compute. reflexivity. Qed.
 
 (* ---- non-vacuity: 3 workers, 6 requests (one carries an error, two positive, one failing) ---- *)
+(* scheduling policy of the example run: the request source's input never stalls *)
+Definition no_stall (l : loc) : bool := match l with Src _ => true | _ => false end.
 Definition ex_reqs := [(0, false); (1, true); (2, false); (3, false); (4, false); (5, false)].
 Definition ex_out (id : nat) := match id with 0 | 4 => SPos | 3 => SFail | _ => SNeg end.
-Definition ex_final := exec (beh 3 ex_out) (fun _ => 0) (rounds 60 9) (init 3 1 ex_reqs).
+Definition ex_final := exec (beh 3 ex_out) (fun _ => 0) no_stall (rounds 60 9) (init 3 1 ex_reqs).
 Example C08_ex_reachable : reachable (beh 3 ex_out) (init 3 1 ex_reqs) ex_final.
 Proof. apply exec_reachable. apply R0. Qed.
 Example C08_ex_state :
